@@ -3984,6 +3984,14 @@ impl<'a> ZonedDifference<'a> {
         let tz = zdt1.time_zone();
 
         let (dt1, mut dt2) = (zdt1.datetime(), zdt2.datetime());
+        // When both are on the same civil day, the difference is just the
+        // elapsed time between them (as in Temporal's
+        // `DifferenceZonedDateTime`). Comparing their clock times instead
+        // goes wrong when the clock was set back in between: the later
+        // instant then has the *earlier* clock time.
+        if dt1.date() == dt2.date() {
+            return zdt1.timestamp().until((Unit::Hour, zdt2.timestamp()));
+        }
 
         let mut day_correct: t::SpanDays = C(0).rinto();
         if -sign == dt1.time().until_nanoseconds(dt2.time()).signum() {
